@@ -12,6 +12,7 @@ import config_checks
 import render_checks
 import feed_checks
 import ui_checks
+import screen_checks
 
 
 def decode_check(prop, tier, seed, rep):
@@ -31,6 +32,7 @@ CHECKS["C20"] = config_checks.run
 CHECKS["C11"] = render_checks.run
 CHECKS["C16"] = feed_checks.run
 CHECKS["C17"] = ui_checks.run
+CHECKS["C18"] = screen_checks.run
 
 
 def setup():
